@@ -1,35 +1,38 @@
 #!/bin/bash
-# usage: mutest.sh <patch.diff> [props…]   — applies a seeded change to /repo, runs the quick checks
-# (default: all registered), restores /repo.  Uses a private copy of the Lean project so that the
-# main one (and its build cache) is not disturbed.
+# usage: mutest.sh <patch.diff> [props…]   — applies a seeded change to a SCRATCH worktree of /repo (never to /repo
+# itself), runs the quick checks against it (default: all registered) through VERIF_REPO, removes the worktree.
+# Private copies of the Lean project, the harness and the surface crate are used (build/mut/<slot>/…), so several
+# mutest.sh can run side by side (slot = $MUT_SLOT, default 0) and the main checks are not disturbed.
 set -u
 patch=$(readlink -f "$1"); shift
 props="$@"
 [ -z "$props" ] && props=$(python3 -c "import json; print(' '.join(c['property_id'] for c in json.load(open('/verif/MANIFEST.json'))['checks']))")
+slot=${MUT_SLOT:-0}
 cd /verif
-if ! git -C /repo diff --quiet; then echo "/repo has local modifications; refusing"; exit 2; fi
-export VERIF_LEAN_DIR=/verif/build/lean_mut
-export VERIF_EVIDENCE_DIR=/verif/build/mut_evidence
-export VERIF_REPLAY_DIR=/verif/build/mut_replays
-mkdir -p $VERIF_LEAN_DIR
+W=/tmp/verif_mut_$slot
+git -C /repo worktree remove --force $W 2>/dev/null; rm -rf $W
+git -C /repo worktree add -q --detach $W HEAD || exit 2
+trap 'git -C /repo worktree remove --force $W 2>/dev/null; rm -rf $W' EXIT
+git -C $W apply "$patch" || { echo "patch does not apply"; exit 2; }
+export VERIF_REPO=$W
+export VERIF_LEAN_DIR=/verif/build/mut/$slot/lean
+export VERIF_EVIDENCE_DIR=/verif/build/mut/$slot/evidence
+export VERIF_REPLAY_DIR=/verif/build/mut/$slot/replays
+O=/verif/build/mut/$slot/out
+mkdir -p $VERIF_LEAN_DIR $O; rm -f $O/*.out
 rsync -a --delete /verif/lean/ $VERIF_LEAN_DIR/
-git -C /repo apply "$patch" || { echo "patch does not apply"; exit 2; }
 caught=""; missed=""
-mkdir -p /verif/build/mut_out; rm -f /verif/build/mut_out/*.out
-# the first check rebuilds the shared artefacts under the lock; the rest run 8 at a time
+# the first check rebuilds the shared artefacts under the lock; the rest run ${MUT_PAR:-8} at a time
 first=$(echo $props | cut -d' ' -f1)
-./check $first --tier quick > /verif/build/mut_out/$first.out 2>&1
-echo $props | tr ' ' '\n' | grep -v "^$first$" | xargs -P 8 -I{} sh -c './check {} --tier quick > /verif/build/mut_out/{}.out 2>&1'
+./check $first --tier quick > $O/$first.out 2>&1
+echo $props | tr ' ' '\n' | grep -v "^$first$" | xargs -P ${MUT_PAR:-8} -I{} sh -c "./check {} --tier quick > $O/{}.out 2>&1"
 for p in $props; do
-  out=$(cat /verif/build/mut_out/$p.out)
+  out=$(cat $O/$p.out)
   if echo "$out" | grep -q "^VIOLATION"; then
      caught="$caught $p"; echo "== $p: CAUGHT  $(echo "$out" | grep -m1 '^VIOLATION')"; echo "$out" | grep -m2 "failing input\|broken:" | cut -c1-300
   else
      missed="$missed $p"
   fi
 done
-git -C /repo checkout -- .
 echo "CAUGHT-BY:$caught"
 echo "SILENT:$missed"
-# restore generated model of the main project is untouched (private copy used); rebuild harness against clean repo
-(cd /verif/harness && cargo build --offline >/dev/null 2>&1)
